@@ -51,6 +51,10 @@ pub const POLL_QUEUE: u32 = 14;
 pub const POLL_CANCEL: u32 = 15;
 /// `Driver::drop` releases an operation whose completion was never reaped.
 pub const DROP_DRAIN: u32 = 16;
+/// Polling driver: descriptor b is (re)registered with the poller carrying operation a as its key.
+pub const POLL_ARM: u32 = 17;
+/// Polling driver: descriptor b is removed from the poller.
+pub const POLL_DISARM: u32 = 18;
 /// `AwakeFlag::set`.
 pub const AWAKE_SET: u32 = 20;
 /// `AwakeFlag::reset` (b = prior value).
